@@ -145,8 +145,9 @@ class Ctx:
         n_lines = sum(1 for _ in open(trace_file))
         kf = "{" + ", ".join('"%s"' % k for k in self.known_ids) + "}"
         cfg = "SPECIFICATION Spec\nCONSTANT TraceFile = \"%s\"\nCONSTANT KnownFindings = %s\nCONSTANT Notes = TRUE\n" % (trace_file, kf)
-        if props:
-            cfg += "PROPERTY " + " ".join(props) + "\n"
+        frame = [] if os.environ.get("VERIF_NOFRAME") == "1" or "concurrent" in os.path.basename(trace_file) else ["P_Frame"]
+        if props or frame:
+            cfg += "PROPERTY " + " ".join(list(props) + frame) + "\n"
         if invariants:
             cfg += "INVARIANT " + " ".join(invariants) + "\n"
         cfg += "POSTCONDITION TraceAccepted\nCHECK_DEADLOCK FALSE\n"
@@ -162,6 +163,8 @@ class Ctx:
         if m:
             ls = re.findall(r"^/\\ l = (\d+)", out, re.M)
             line = int(ls[-1]) if ls else -1
+            if m.group(2) == "P_Frame":
+                raise MachineryError("harness frame condition violated at event %d of %s: the projected state after a reconcile does not agree with its recorded writes (see %s/tlc.out)" % (line + 1, trace_file, d))
             return (m.group(2), line)
         if "Model checking completed. No error has been found." in out and dist == n_lines:
             return None
